@@ -10,21 +10,21 @@ PLANS = {
     "C17": {
         "pass": "tofunc",
         "quick": [("meth3", "meth", 3, 14000), ("core3", "core", 3, 2000)],
-        "thorough": [("meth3", "meth", 3, None), ("meth4", "meth", 4, 150000), ("core3", "core", 3, None)],
+        "thorough": [("meth3", "meth", 3, None), ("core3", "core", 3, None), ("methR6", "meth", 6, 60000, 4000)],
         "clauses": {"Exact", "MethodFormLeft", "Idempotent", "Preserve", "Total"},
     },
     "C19": {
         "pass": "aggregate",
         "quick": [("agg3", "agg", 3, 8000), ("agg2_3", "agg2", 3, None)],
         "thorough": [("agg3", "agg", 3, None), ("agg4", "agg", 4, 150000), ("agg2_3", "agg2", 3, None),
-                     ("agg2_4", "agg2", 4, 100000)],
+                     ("agg2_4", "agg2", 4, 100000), ("aggR6", "agg2", 6, 40000, 3000)],
         "clauses": {"Skeleton", "ShortcutLeft", "FoldValue", "Preserve", "Total"},
     },
     "C15": {
         "pass": "md",
         "quick": [("md3", "md", 3, None), ("md1_5", "md1", 5, 12000)],
         "thorough": [("md3", "md", 3, None), ("md4", "md", 4, 120000), ("md1_5", "md1", 5, None),
-                     ("md1_6", "md1", 6, 150000)],
+                     ("mdR7", "md", 7, 40000, 3000)],
         "clauses": {"Strip", "ListCount", "ListOrder", "Exact", "InputModified", "Total"},
     },
 }
@@ -56,8 +56,14 @@ def run(prop, tier):
     jobs = []
     fam_counts = {}
     rnd = random.Random(common.seed() + 17)
-    for (name, fam, budget, keep) in plan[tier]:
-        progs, st = common.gen_programs(prop, name, fam, budget)
+    for entry in plan[tier]:
+        (name, fam, budget, keep) = entry[:4]
+        walks = entry[4] if len(entry) > 4 else None       # seeded random walks instead of BFS
+        if walks:
+            progs, st = common.gen_programs(prop, name, fam, budget, simulate=f"num={max(1, walks // 16)}",
+                                            extra_args=["-depth", "80", "-seed", str(common.seed() + 11)])
+        else:
+            progs, st = common.gen_programs(prop, name, fam, budget)
         rep.add_tlc(st)
         total = len(progs)
         if prop == "C15":
